@@ -147,10 +147,22 @@ func (f *StreamFrame) MaxDataLen(maxSize protocol.ByteCount, _ protocol.Version)
 		return 0
 	}
 	maxDataLen := maxSize - headerLen
-	if f.DataLenPresent && quicvarint.Len(uint64(maxDataLen)) != 1 {
-		maxDataLen--
+	if f.DataLenPresent {
+		maxDataLen = shrinkForLengthField(maxDataLen)
 	}
 	return maxDataLen
+}
+
+// shrinkForLengthField takes the number of bytes that are left for the data of a frame when its
+// length field is encoded in a single byte, and returns the largest data length for which the data
+// and its (possibly longer) varint-encoded length field still fit into the same space.
+func shrinkForLengthField(space protocol.ByteCount) protocol.ByteCount {
+	dataLen := space
+	// Longer data needs a longer length field. At most 7 more bytes are needed.
+	for dataLen > 0 && protocol.ByteCount(quicvarint.Len(uint64(dataLen))-1)+dataLen > space {
+		dataLen--
+	}
+	return dataLen
 }
 
 // MaybeSplitOffFrame splits a frame such that it is not bigger than n bytes.
